@@ -12,10 +12,11 @@
   strict ancestor of another common ancestor" (the graph-theoretic merge base); `g.WF` = every parent is a
   commit `< g.n`; `g.StrictMono` = stamps strictly increase from every parent to its child.
 
-  What holds for EVERY graph and EVERY clock: §1 soundness, §2 termination, §3 completeness, §5 walks without
-  excludes.  What needs `StrictMono` (and is false without it — §6 witnesses, replayed on the real code by the
-  harness): §4 exactness of merge base / fast-forward / independent.  `find_octopus_base` is not exact even
-  under `StrictMono` (§6).
+  The model is the code AFTER the C13 fix series (no default date cut in `_find_lcas`, `c1 in lcas` in
+  `can_fast_forward`, `_remove_redundant` in `find_merge_base`/`find_octopus_base`, duplicate ids removed in
+  `independent`).  For every closed acyclic history and EVERY clock: §1 soundness, §2 termination,
+  §3 completeness of `_find_lcas`, §4 exactness of merge base / fast-forward / independent / octopus base,
+  §5 walks.  §6 keeps, on the pre-fix functions (`LCA.Old`), the witnesses of the six defects the series repaired.
 -/
 import DulwichModel.Lemmas.LCA
 import DulwichModel.Lemmas.Walk
@@ -39,13 +40,13 @@ theorem flag_encoding_faithful : ∀ a b : Fin 16,
       (Flags.ofNat a.val).ancMask.isBoth) := by
   decide
 
-/-! ## 1. soundness of the flags — every DAG, every assignment of stamps, any `min_stamp`, any fuel -/
+/-! ## 1. soundness of the flags — every DAG, every assignment of stamps, any cut, any fuel -/
 
 /-- When the loop of `_find_lcas` stops, a commit carries `_ANC_OF_1` only if it is `c1` or an ancestor of
 `c1`, `_ANC_OF_2` only if it is an ancestor-or-self of some `c2`, `_DNC` only if it is a strict ancestor of a
 common ancestor. No hypothesis on the graph (not even acyclicity) or on the stamps. -/
-theorem flags_sound (g : Graph) (c1 : Nat) (c2s : List Nat) (minStamp : Int) (fuel : Nat) (s : St)
-    (h : loop g minStamp fuel (init g c1 c2s) = .ok s) (c : Nat) (f : Flags) (hf : s.fl.get c = some f) :
+theorem flags_sound (g : Graph) (c1 : Nat) (c2s : List Nat) (cut : Nat → Bool) (fuel : Nat) (s : St)
+    (h : loop g cut fuel (init g c1 c2s) = .ok s) (c : Nat) (f : Flags) (hf : s.fl.get c = some f) :
     (f.anc1 = true → Anc g c c1) ∧ (f.anc2 = true → ∃ c2, c2 ∈ c2s ∧ Anc g c c2) ∧
     (f.dnc = true → ∃ y, CA g c1 c2s y ∧ SAnc g c y) := by
   have := (loop_inv (SoundSt g c1 c2s)
@@ -54,40 +55,12 @@ theorem flags_sound (g : Graph) (c1 : Nat) (c2s : List Nat) (minStamp : Int) (fu
   exact ⟨hg.a1, hg.a2, hg.dn⟩
 
 /-- Every commit `_find_lcas` reports is a common ancestor of `c1` and one of `c2s` — every DAG, every clock. -/
-theorem lcas_are_common_ancestors (g : Graph) (c1 : Nat) (c2s : List Nat) (minStamp : Int) (fuel : Nat)
-    (r : List Nat) (h : findLcasFuel fuel g c1 c2s minStamp = .ok r) (x : Nat) (hx : x ∈ r) :
-    CA g c1 c2s x := by
-  unfold findLcasFuel at h
-  split at h
-  · cases h
-  · rename_i s hs
-    split at h
-    · cases h
-    · rename_i res hres
-      cases h
-      have hinv := (loop_inv (SoundSt g c1 c2s)
-        (fun s dt c rest f hI _ _ hf => stepWith_sound hI hf) fuel _ _ (init_sound g c1 c2s).1 hs).1
-      obtain ⟨e, he, rfl⟩ := List.mem_map.mp hx
-      rw [mem_sortByStamp] at he
-      rcases (finalFilter_mem _ _ _ hres e).mp he with h0 | ⟨hc, _⟩
-      · cases h0
-      · obtain ⟨f, hf, h1, h2⟩ := hinv.cands e hc
-        have hg := hinv.fl e.2 f hf
-        exact ⟨hg.a1 h1, hg.a2 h2⟩
+theorem lcas_are_common_ancestors (g : Graph) (c1 : Nat) (c2s : List Nat) (cut : Nat → Bool) (fuel : Nat)
+    (r : List Nat) (h : findLcasFuel fuel g c1 c2s cut = .ok r) (x : Nat) (hx : x ∈ r) :
+    CA g c1 c2s x :=
+  findLcasFuel_sound h hx
 
-/-- `find_merge_base([c1] + c2s)` only reports common ancestors. -/
-theorem merge_base_sound (g : Graph) (c1 : Nat) (c2 : Nat) (c2s : List Nat) (r : List Nat)
-    (h : findMergeBase g (c1 :: c2 :: c2s) = .ok r) (x : Nat) (hx : x ∈ r) : CA g c1 (c2 :: c2s) x := by
-  simp only [findMergeBase] at h
-  split at h
-  · rename_i hmem
-    cases h
-    simp only [List.mem_singleton] at hx
-    subst hx
-    exact ⟨Anc.refl x, x, by simpa using hmem, Anc.refl x⟩
-  · exact lcas_are_common_ancestors g c1 (c2 :: c2s) _ _ r h x hx
-
-/-- `can_fast_forward(c1, c2) = True` only if `c1` is `c2` or an ancestor of `c2` — every DAG, every clock. -/
+/-- `can_fast_forward(c1, c2) = True` only if `c1` is `c2` or an ancestor of `c2` — every graph, every clock. -/
 theorem ff_true_sound (g : Graph) (c1 c2 : Nat) (h : canFastForward g c1 c2 = .ok true) : Anc g c1 c2 := by
   unfold canFastForward at h
   split at h
@@ -95,9 +68,8 @@ theorem ff_true_sound (g : Graph) (c1 c2 : Nat) (h : canFastForward g c1 c2 = .o
   · split at h
     · cases h
     · rename_i l hl
-      simp only [Except.ok.injEq, beq_iff_eq] at h
-      subst h
-      obtain ⟨_, c2', hc2, ha⟩ := lcas_are_common_ancestors g c1 [c2] _ _ _ hl c1 (by simp)
+      simp only [Except.ok.injEq, List.contains_eq_mem, decide_eq_true_eq] at h
+      obtain ⟨_, c2', hc2, ha⟩ := findLcasFuel_sound hl h
       simp only [List.mem_singleton] at hc2
       subst hc2
       exact ha
@@ -107,174 +79,103 @@ theorem ff_true_sound (g : Graph) (c1 c2 : Nat) (h : canFastForward g c1 c2 = .o
 /-- On a closed history (`WF`: every parent is a commit) `_find_lcas` returns a list: the loop ends within the
 default fuel (each push sets a new one of the three propagating bits of some commit, so there are at most
 `3·n` pushes after the `1 + |c2s|` initial ones), `cstates[cmt]` never raises and the heap is never popped
-empty.  Any `min_stamp`, any stamps. -/
+empty.  Any cut, any stamps. -/
 theorem lca_terminates (g : Graph) (hwf : g.WF) (c1 : Nat) (c2s : List Nat) (h1 : c1 < g.n)
-    (h2 : ∀ c, c ∈ c2s → c < g.n) (minStamp : Int) : ∃ r, findLcas g c1 c2s minStamp = .ok r := by
-  obtain ⟨hdom, hlen⟩ := init_dom (g := g) h1 h2
-  have hmu : mu g (init g c1 c2s) ≤ defaultFuel g c2s := by
-    unfold mu defaultFuel
-    have := total_le (init g c1 c2s).fl g.n
-    omega
-  obtain ⟨s, hs⟩ := loop_ok (m := minStamp) hwf _ _ hdom hmu
-  have hinv := (loop_all (m := minStamp) hwf h1 h2 hs).1
-  obtain ⟨res, hres⟩ := finalFilter_ok s.cands [] (fun e he => (hinv.dom.cands e he).2)
-  exact ⟨(sortByStamp res).map (·.2), by simp only [findLcas, findLcasFuel, hs, hres]⟩
+    (h2 : ∀ c, c ∈ c2s → c < g.n) (cut : Nat → Bool) : ∃ r, findLcas g c1 c2s cut = .ok r :=
+  findLcas_terminates hwf h1 h2 cut
 
-/-! ## 3. completeness — every DAG, every assignment of stamps -/
+/-- `find_merge_base` and `can_fast_forward` return (no error result) on every closed history. -/
+theorem merge_base_terminates (g : Graph) (hwf : g.WF) (ids : List Nat) (hids : ∀ c, c ∈ ids → c < g.n) :
+    ∃ r, findMergeBase g ids = .ok r :=
+  findMergeBase_terminates hwf hids
+
+theorem ff_terminates (g : Graph) (hwf : g.WF) (c1 c2 : Nat) (h1 : c1 < g.n) (h2 : c2 < g.n) :
+    ∃ b, canFastForward g c1 c2 = .ok b := by
+  unfold canFastForward
+  split
+  · exact ⟨true, rfl⟩
+  · obtain ⟨r, hr⟩ := findLcas_terminates hwf h1 (c2s := [c2]) (by simp [h2]) (defaultCut g)
+    exact ⟨r.contains c1, by rw [hr]⟩
+
+/-! ## 3. completeness of `_find_lcas` — every DAG, every assignment of stamps -/
 
 /-- Every maximal common ancestor is reported, whatever the clocks say, as long as no commit from which it is
-reachable is older than `min_stamp` (always true for the default `min_stamp = 0` and non-negative stamps).
-So the only way `find_merge_base` can be wrong on a skewed clock is by reporting too much. -/
+reachable is cut off (`cut` is constantly false since the fix: `min_stamp=None`).  So on any clock
+`_find_lcas` can only over-report; `_remove_redundant` removes the excess. -/
 theorem lcas_complete (g : Graph) (hwf : g.WF) (c1 : Nat) (c2s : List Nat) (h1 : c1 < g.n)
-    (h2 : ∀ c, c ∈ c2s → c < g.n) (minStamp : Int) (fuel : Nat) (r : List Nat)
-    (h : findLcasFuel fuel g c1 c2s minStamp = .ok r) (x : Nat) (hx : MaxCA g c1 c2s x)
-    (hcut : ∀ y, Anc g x y → minStamp ≤ g.ts y) : x ∈ r := by
-  obtain ⟨s, res, hs, hres, rfl⟩ := findLcasFuel_ok h
-  obtain ⟨hinv, hnc⟩ := loop_all (m := minStamp) hwf h1 h2 hs
-  rw [mem_result hres]
-  exact final_has_max hinv.sound hinv.live hnc hx (fun y hy => Int.not_lt.mpr (hcut y hy))
+    (h2 : ∀ c, c ∈ c2s → c < g.n) (cut : Nat → Bool) (fuel : Nat) (r : List Nat)
+    (h : findLcasFuel fuel g c1 c2s cut = .ok r) (x : Nat) (hx : MaxCA g c1 c2s x)
+    (hcut : ∀ y, Anc g x y → cut y = false) : x ∈ r :=
+  findLcasFuel_complete hwf h1 h2 h hx hcut
 
-/-- Consequence for EVERY clock (closed acyclic history, non-negative stamps, no `min_stamp` cut): `c1` is in
-`_find_lcas(c1, [c2])` exactly when `c1` is `c2` or an ancestor of `c2`.  So the *membership* test
-`c1 in _find_lcas(c1, [c2])` is an exact ancestry test on any clock, whereas the equality test `lcas == [c1]`
-with the `min_stamp` cut that `can_fast_forward` uses is not (§6) — this is the basis of the proposed fix. -/
-theorem ancestor_iff_mem_lcas (g : Graph) (hwf : g.WF) (rk : Nat → Nat)
-    (hrk : ∀ c p, p ∈ g.parents c → rk p < rk c) (hpos : ∀ z, 0 ≤ g.ts z) (c1 c2 : Nat) (h1 : c1 < g.n)
-    (h2 : c2 < g.n) (fuel : Nat) (r : List Nat) (h : findLcasFuel fuel g c1 [c2] 0 = .ok r) :
+/-- `c1 ∈ _find_lcas(c1, [c2])` (no cut) exactly when `c1` is `c2` or an ancestor of `c2` — every clock. -/
+theorem ancestor_iff_mem_lcas (g : Graph) (hwf : g.WF) (hac : g.Acyclic) (c1 c2 : Nat) (h1 : c1 < g.n)
+    (h2 : c2 < g.n) (fuel : Nat) (r : List Nat) (h : findLcasFuel fuel g c1 [c2] (defaultCut g) = .ok r) :
     c1 ∈ r ↔ Anc g c1 c2 := by
-  constructor
-  · intro hc
-    obtain ⟨_, c2', hc2, ha⟩ := lcas_are_common_ancestors g c1 [c2] 0 fuel r h c1 hc
-    simp only [List.mem_singleton] at hc2
-    subst hc2; exact ha
-  · intro hanc
-    apply lcas_complete g hwf c1 [c2] h1 (by simp [h2]) 0 fuel r h c1 _ (fun y _ => hpos y)
-    refine ⟨⟨Anc.refl c1, c2, by simp, hanc⟩, ?_⟩
-    rintro ⟨y, ⟨hy, _⟩, hsy⟩
-    have := hsy.rk_lt hrk
-    have := hy.rk_le hrk
-    omega
+  obtain ⟨rk, hrk⟩ := hac
+  exact mem_lcas_iff_anc hwf hrk h1 h2 (defaultCut_false g) h
 
-/-! ## 4. exactness — full statements (false on the unchanged code) and what is proved -/
-
-/-- The property as worded for merge bases: on every closed history with non-negative stamps
-`find_merge_base` returns exactly the maximal common ancestors. **False** for the unchanged code
-(`lca_nonmaximal_counterexample`); proved below under `StrictMono`. -/
-def MergeBaseExactStatement : Prop :=
-  ∀ (g : Graph), g.WF → (∀ z, 0 ≤ g.ts z) → ∀ (c1 c2 : Nat) (c2s : List Nat), c1 < g.n →
-    (∀ c, c ∈ c2 :: c2s → c < g.n) → ∀ r, findMergeBase g (c1 :: c2 :: c2s) = .ok r →
-      ∀ x, x ∈ r ↔ MaxCA g c1 (c2 :: c2s) x
-
-/-- The property as worded for fast-forward tests. **False** for the unchanged code (`ff_skew_counterexample`). -/
-def FfExactStatement : Prop :=
-  ∀ (g : Graph), g.WF → ∀ (c1 c2 : Nat), c1 < g.n → c2 < g.n →
-    ∀ b, canFastForward g c1 c2 = .ok b → (b = true ↔ Anc g c1 c2)
-
-/-- `_find_lcas` is exact when stamps strictly increase from every parent to its child and nothing is cut off
-by `min_stamp`: the result lists exactly the maximal common ancestors, each once.  (`StrictMono` is what the
-proof needs: the queue then pops in an order in which nothing still queued is newer than a recorded candidate,
-so every commit above a candidate has been fully processed.  Non-strict monotonicity is not enough — the
-second witness has all stamps equal.) -/
+/-- The raw result of `_find_lcas` (before `_remove_redundant`) is already exact when stamps strictly increase
+from every parent to its child and nothing is cut: exactly the maximal common ancestors, each once.
+(`StrictMono` is what this needs; with equal stamps the raw result can contain a redundant entry, §6.) -/
 theorem lcas_exact_partial (g : Graph) (hwf : g.WF) (hmono : g.StrictMono) (c1 : Nat) (c2s : List Nat)
-    (h1 : c1 < g.n) (h2 : ∀ c, c ∈ c2s → c < g.n) (minStamp : Int) (hcut : ∀ z, minStamp ≤ g.ts z)
-    (fuel : Nat) (r : List Nat) (h : findLcasFuel fuel g c1 c2s minStamp = .ok r) :
+    (h1 : c1 < g.n) (h2 : ∀ c, c ∈ c2s → c < g.n) (cut : Nat → Bool) (hcut : ∀ z, cut z = false)
+    (fuel : Nat) (r : List Nat) (h : findLcasFuel fuel g c1 c2s cut = .ok r) :
     (∀ x, x ∈ r ↔ MaxCA g c1 c2s x) ∧ r.Nodup :=
   findLcasFuel_exact hwf hmono h1 h2 hcut h
 
-/-- `find_merge_base` returns exactly the graph-theoretic merge bases when stamps are non-negative and strictly
-increase from parent to child. -/
-theorem merge_base_exact_partial (g : Graph) (hwf : g.WF) (hmono : g.StrictMono) (hpos : ∀ z, 0 ≤ g.ts z)
-    (c1 c2 : Nat) (c2s : List Nat) (h1 : c1 < g.n) (h2 : ∀ c, c ∈ c2 :: c2s → c < g.n) (r : List Nat)
-    (h : findMergeBase g (c1 :: c2 :: c2s) = .ok r) (x : Nat) : x ∈ r ↔ MaxCA g c1 (c2 :: c2s) x := by
-  simp only [findMergeBase] at h
-  split at h
-  · rename_i hmem
-    cases h
-    have hmem' : c1 ∈ c2 :: c2s := by simpa using hmem
-    simp only [List.mem_singleton]
-    constructor
-    · rintro rfl
-      refine ⟨⟨Anc.refl x, x, hmem', Anc.refl x⟩, ?_⟩
-      rintro ⟨y, ⟨hy, _⟩, hs⟩
-      have := hs.ts_lt hmono
-      have := hy.ts_le hmono
-      omega
-    · rintro ⟨⟨hx1, _⟩, hmax⟩
-      rcases hx1.eq_or_sanc with h | h
-      · exact h
-      · exact absurd ⟨c1, ⟨Anc.refl c1, c1, hmem', Anc.refl c1⟩, h⟩ hmax
-  · have hm : (if Gen.mergeBasePassesMinStamp = true then g.ts c1 else Gen.lcaDefaultMinStamp) = 0 := rfl
-    rw [hm] at h
-    exact (lcas_exact_partial g hwf hmono c1 (c2 :: c2s) h1 h2 0 hpos _ r h).1 x
+/-! ## 4. exactness of the public functions — every closed acyclic history, EVERY assignment of stamps
 
-/-- `can_fast_forward(c1, c2)` answers the ancestry question exactly when stamps strictly increase from parent
-to child (the `min_stamp = ts c1` cut then only removes strict ancestors of `c1`). -/
-theorem ff_exact_partial (g : Graph) (hwf : g.WF) (hmono : g.StrictMono) (c1 c2 : Nat) (h1 : c1 < g.n)
-    (h2 : c2 < g.n) (b : Bool) (h : canFastForward g c1 c2 = .ok b) : b = true ↔ Anc g c1 c2 := by
+No hypothesis on the stamps at all (negative, equal, running backwards): `Gen.lcaDefaultMinStamp = none`, so
+nothing is cut (`defaultCut_false` is `rfl` on the generated constant). -/
+
+/-- `find_merge_base([c1, c2, …])` returns exactly the maximal common ancestors of `c1` and (one of) the others,
+each once. -/
+theorem merge_base_exact (g : Graph) (hwf : g.WF) (hac : g.Acyclic) (c1 c2 : Nat) (c2s : List Nat)
+    (h1 : c1 < g.n) (h2 : ∀ c, c ∈ c2 :: c2s → c < g.n) (r : List Nat)
+    (h : findMergeBase g (c1 :: c2 :: c2s) = .ok r) :
+    r.Nodup ∧ ∀ x, x ∈ r ↔ MaxCA g c1 (c2 :: c2s) x := by
+  obtain ⟨rk, hrk⟩ := hac
+  exact findMergeBase_exact hwf hrk h1 h2 h
+
+/-- `can_fast_forward(c1, c2)` is `True` exactly when `c1` is `c2` or an ancestor of `c2`. -/
+theorem ff_exact (g : Graph) (hwf : g.WF) (hac : g.Acyclic) (c1 c2 : Nat) (h1 : c1 < g.n) (h2 : c2 < g.n)
+    (b : Bool) (h : canFastForward g c1 c2 = .ok b) : b = true ↔ Anc g c1 c2 := by
   constructor
   · rintro rfl; exact ff_true_sound g c1 c2 h
   · intro hanc
     unfold canFastForward at h
     split at h
     · cases h; rfl
-    · rename_i hne
-      split at h
+    · split at h
       · cases h
       · rename_i l hl
         cases h
-        have hm : (if Gen.ffPassesMinStamp = true then g.ts c1 else Gen.lcaDefaultMinStamp) = g.ts c1 := rfl
-        rw [hm] at hl
-        have h2' : ∀ c, c ∈ [c2] → c < g.n := by simp [h2]
-        obtain ⟨s, res, hs, hres, rfl⟩ := findLcasFuel_ok hl
-        obtain ⟨hinv, hnc⟩ := loop_all (m := g.ts c1) hwf h1 h2' hs
-        have hca1 : CA g c1 [c2] c1 := ⟨Anc.refl c1, c2, by simp, hanc⟩
-        have hmax1 : MaxCA g c1 [c2] c1 := by
-          refine ⟨hca1, ?_⟩
-          rintro ⟨y, ⟨hy, _⟩, hsy⟩
-          have := hsy.ts_lt hmono
-          have := hy.ts_le hmono
-          omega
-        have hin : c1 ∈ (sortByStamp res).map (·.2) := by
-          rw [mem_result hres]
-          exact final_has_max hinv.sound hinv.live hnc hmax1
-            (fun y hy => Int.not_lt.mpr (hy.ts_le hmono))
-        have hall : ∀ x, x ∈ (sortByStamp res).map (·.2) → x = c1 := by
-          intro x hx
-          rw [mem_result hres] at hx
-          obtain ⟨dt, f, hc, hf, _⟩ := hx
-          obtain ⟨f0, hf0, ha1, ha2⟩ := hinv.sound.cands _ hc
-          simp only at hf0
-          have hg := hinv.sound.fl x f0 hf0
-          have hx1 := hg.a1 ha1
-          rcases hx1.eq_or_sanc with heq | hsx
-          · exact heq
-          · exfalso
-            have hlt := hsx.ts_lt hmono
-            rcases hinv.cut x f hf with h | h | h
-            · subst h; omega
-            · simp only [List.mem_singleton] at h
-              subst h
-              have := hanc.ts_le hmono
-              omega
-            · exact h hlt
-        have := eq_singleton_of_nodup (result_nodup hres hinv.cand.nodup) hin hall
-        simp [this]
+        have := (ancestor_iff_mem_lcas g hwf hac c1 c2 h1 h2 _ l hl).mpr hanc
+        simpa using this
 
-/-- The property as worded for independence filtering: on every closed history with non-negative stamps
-`independent` returns exactly the ids not reachable from another (different) id.  **False** for the unchanged
-code (`ff_equal_stamps_counterexample`, `independent_duplicate_counterexample`). -/
-def IndependentExactStatement : Prop :=
-  ∀ (g : Graph), g.WF → (∀ z, 0 ≤ g.ts z) → ∀ (ids : List Nat), (∀ c, c ∈ ids → c < g.n) →
-    ∀ r, independent g ids = .ok r → ∀ x, x ∈ r ↔ x ∈ ids ∧ ¬ ∃ o, o ∈ ids ∧ o ≠ x ∧ Anc g x o
+/-- `independent(ids)` returns exactly the ids that are not reachable from another (different) id, each once,
+in the order of their first occurrence. -/
+theorem independent_exact (g : Graph) (hwf : g.WF) (hac : g.Acyclic) (ids : List Nat)
+    (hids : ∀ c, c ∈ ids → c < g.n) (r : List Nat) (h : independent g ids = .ok r) :
+    r.Nodup ∧ r.Sublist (dedupe ids) ∧ ∀ x, x ∈ r ↔ x ∈ ids ∧ ¬ ∃ o, o ∈ ids ∧ o ≠ x ∧ Anc g x o := by
+  obtain ⟨rk, hrk⟩ := hac
+  exact LCA.independent_exact hwf hrk hids h
 
-/-- `independent` is exact — the survivors are exactly the ids that are not reachable from another one of the
-ids, kept in input order — when stamps are non-negative and strictly increase from parent to child and the ids
-are pairwise distinct (an id given twice is dropped altogether: `independent_duplicate_counterexample`). -/
-theorem independent_exact_partial (g : Graph) (hwf : g.WF) (hmono : g.StrictMono) (hpos : ∀ z, 0 ≤ g.ts z)
-    (ids : List Nat) (hids : ∀ c, c ∈ ids → c < g.n) (hnd : ids.Nodup) (r : List Nat)
-    (h : independent g ids = .ok r) :
-    r.Sublist ids ∧ ∀ x, x ∈ r ↔ x ∈ ids ∧ ¬ ∃ o, o ∈ ids ∧ o ≠ x ∧ Anc g x o :=
-  independent_exact hwf hmono hpos hids hnd h
+/-- `find_octopus_base(ids)` returns exactly the maximal common ancestors of ALL the ids, each once. -/
+theorem octopus_exact (g : Graph) (hwf : g.WF) (hac : g.Acyclic) (ids : List Nat) (hne : ids ≠ [])
+    (hids : ∀ c, c ∈ ids → c < g.n) (r : List Nat) (h : findOctopusBase g ids = .ok r) :
+    r.Nodup ∧ ∀ x, x ∈ r ↔ MaxCAall g ids x := by
+  obtain ⟨rk, hrk⟩ := hac
+  exact findOctopusBase_exact hwf hrk hne hids h
+
+/-- in particular no reported octopus base is an ancestor of another one -/
+theorem octopus_antichain (g : Graph) (hwf : g.WF) (hac : g.Acyclic) (ids : List Nat) (hne : ids ≠ [])
+    (hids : ∀ c, c ∈ ids → c < g.n) (r : List Nat) (h : findOctopusBase g ids = .ok r) (x y : Nat)
+    (hx : x ∈ r) (hy : y ∈ r) : ¬ SAnc g x y := by
+  obtain ⟨_, hmem⟩ := octopus_exact g hwf hac ids hne hids r h
+  intro hs
+  exact ((hmem x).mp hx).2 ⟨y, ((hmem y).mp hy).1, hs⟩
 
 /-! ## 5. history walks -/
 
@@ -363,7 +264,7 @@ theorem walk_sound (g : Graph) (o : Walk.Opts) (rk : Nat → Nat) (hrk : ∀ c p
       (∀ m, o.since = some m → m ≤ g.ts c) ∧ (∀ m, o.untl = some m → g.ts c ≤ m) :=
   Walk.walk_sound_all rk hrk h
 
-/-! ## 6. negation witnesses (F14 and two more): the unchanged code is not exact on skewed / equal clocks -/
+/-! ## 6. regression witnesses: what the code did BEFORE the fix series (`LCA.Old`), and does now -/
 
 /-- chain `0 ← 1 ← 2` (1's parent is 0, 2's parent is 1) with stamps (1,0,0) -/
 def chain3 : Graph := Graph.ofLists [[], [0], [1]] [1, 0, 0]
@@ -371,92 +272,77 @@ def chain3 : Graph := Graph.ofLists [[], [0], [1]] [1, 0, 0]
 /-- `1←0, 2←1, 3←{0,2}` (3 merges 0 and 2), all stamps equal -/
 def diamond4 : Graph := Graph.ofLists [[], [0], [1], [0, 2]] [0, 0, 0, 0]
 
-/-- `can_fast_forward(0, 2)` is `False` on the chain although 0 is an ancestor of 2: commit 1 (stamp 0) is
-older than `min_stamp = ts 0 = 1` and is never queued. -/
+/-- `r←x←y`, `a` on `x`, `b` on `y`, `c1 = c2 = merge(a, b)`, `c3` on `y`; commits numbered
+`r=0 x=1 y=2 a=3 b=4 c1=5 c2=6 c3=7`, stamps strictly increasing -/
+def octo8 : Graph := Graph.ofLists [[], [0], [1], [1], [2], [3, 4], [3, 4], [2]] [0, 1, 2, 3, 4, 5, 6, 7]
+
+/-- a root dated before 1970 and its child -/
+def neg2 : Graph := Graph.ofLists [[], [0]] [-5, 3]
+
+/-- before: `can_fast_forward(0, 2)` was `False` on the chain although 0 is an ancestor of 2 (commit 1, stamp 0,
+is older than `min_stamp = ts 0 = 1` and was never queued); now `True`. -/
 theorem ff_skew_counterexample :
-    canFastForward chain3 0 2 = .ok false ∧ Anc chain3 0 2 := by
-  refine ⟨by decide, ?_⟩
+    Old.canFastForward chain3 0 2 = .ok false ∧ canFastForward chain3 0 2 = .ok true ∧ Anc chain3 0 2 := by
+  refine ⟨by decide, by decide, ?_⟩
   exact Anc.step (p := 1) (by decide) (Anc.step (p := 0) (by decide) (Anc.refl 0))
 
-/-- merge base of (2,3) is reported as `[0, 2]`; 0 is a parent of 1, which is a parent of 2: not maximal. -/
+/-- before: merge base of (2,3) was `[0, 2]` although 0 is a parent of 1, which is a parent of 2; now `[2]`.
+The raw `_find_lcas` still reports `[0, 2]` — `_remove_redundant` is what repairs it. -/
 theorem lca_nonmaximal_counterexample :
-    findMergeBase diamond4 [2, 3] = .ok [0, 2] ∧ ¬ MaxCA diamond4 2 [3] 0 := by
-  refine ⟨by decide, ?_⟩
+    Old.findMergeBase diamond4 [2, 3] = .ok [0, 2] ∧ findLcas diamond4 2 [3] (defaultCut diamond4) = .ok [0, 2] ∧
+    findMergeBase diamond4 [2, 3] = .ok [2] ∧ ¬ MaxCA diamond4 2 [3] 0 := by
+  refine ⟨by decide, by decide, by decide, ?_⟩
   intro h
   apply h.2
   refine ⟨2, ⟨Anc.refl 2, 3, by simp, Anc.step (p := 2) (by decide) (Anc.refl 2)⟩, 1, by decide, ?_⟩
   exact Anc.step (p := 0) (by decide) (Anc.refl 0)
 
-/-- the same defect makes `can_fast_forward(2, 3)` false and `independent([2, 3])` keep both -/
+/-- before: the same defect made `can_fast_forward(2, 3)` false and `independent([2, 3])` keep both; now exact. -/
 theorem ff_equal_stamps_counterexample :
-    canFastForward diamond4 2 3 = .ok false ∧ independent diamond4 [2, 3] = .ok [2, 3] := by
+    Old.canFastForward diamond4 2 3 = .ok false ∧ Old.independent diamond4 [2, 3] = .ok [2, 3] ∧
+    canFastForward diamond4 2 3 = .ok true ∧ independent diamond4 [2, 3] = .ok [3] := by
   decide
 
-theorem chain3_wf : chain3.WF := by unfold Graph.WF; decide
-theorem diamond4_wf : diamond4.WF := by unfold Graph.WF; decide
-
-/-- the fast-forward statement as worded is false for the unchanged code -/
-theorem ff_exact_fails : ¬ FfExactStatement := by
-  intro h
-  have := (h chain3 chain3_wf 0 2 (by decide) (by decide) false ff_skew_counterexample.1).mpr
-    ff_skew_counterexample.2
-  cases this
-
-/-- the merge-base statement as worded is false for the unchanged code -/
-theorem merge_base_exact_fails : ¬ MergeBaseExactStatement := by
-  intro h
-  have := (h diamond4 diamond4_wf (ofLists_nonneg _ _ (by decide)) 2 3 [] (by decide) (by decide) [0, 2]
-    lca_nonmaximal_counterexample.1 0).mp (by simp)
-  exact lca_nonmaximal_counterexample.2 this
-
-/-- `r←x←y`, `a` on `x`, `b` on `y`, `c1 = c2 = merge(a, b)`, `c3` on `y`; commits numbered
-`r=0 x=1 y=2 a=3 b=4 c1=5 c2=6 c3=7`, stamps strictly increasing -/
-def octo8 : Graph := Graph.ofLists [[], [0], [1], [1], [2], [3, 4], [3, 4], [2]] [0, 1, 2, 3, 4, 5, 6, 7]
-
-/-- `find_octopus_base([c1, c2, c3])` folds pairwise merge bases (`{a, b}` then `lcas(c3, a) ∪ lcas(c3, b)`)
-and reports `[x, y]` although `x` is the parent of `y` — with strictly increasing stamps, so this defect is
-independent of the clock (git reduces the union with `reduce_heads`). -/
+/-- before: `find_octopus_base([c1, c2, c3])` folded pairwise merge bases and reported `[x, y]` although `x` is
+the parent of `y` — with strictly increasing stamps; now `[y]`. -/
 theorem octopus_fold_counterexample :
-    findOctopusBase octo8 [5, 6, 7] = .ok [1, 2] ∧ octo8.StrictMono ∧ 1 ∈ octo8.parents 2 := by
-  refine ⟨by decide, ofLists_strictMono _ _ (by decide), by decide⟩
+    Old.findOctopusBase octo8 [5, 6, 7] = .ok [1, 2] ∧ findOctopusBase octo8 [5, 6, 7] = .ok [2] ∧
+    octo8.StrictMono ∧ 1 ∈ octo8.parents 2 := by
+  refine ⟨by decide, by decide, ofLists_strictMono _ _ (by decide), by decide⟩
 
-/-- `independent([A, A])` is empty: an id listed twice is dropped altogether. -/
+/-- before: `independent([A, A])` was empty; now `[A]`. -/
 theorem independent_duplicate_counterexample :
-    independent (Graph.ofLists [[], [0]] [0, 1]) [1, 1] = .ok [] := by decide
+    Old.independent (Graph.ofLists [[], [0]] [0, 1]) [1, 1] = .ok [] ∧
+    independent (Graph.ofLists [[], [0]] [0, 1]) [1, 1] = .ok [1] := by decide
 
-/-- the independence statement as worded is false for the unchanged code (an id given twice) -/
-theorem independent_exact_fails : ¬ IndependentExactStatement := by
-  intro h
-  have := (h (Graph.ofLists [[], [0]] [0, 1]) (by unfold Graph.WF; decide) (ofLists_nonneg _ _ (by decide))
-    [1, 1] (by decide) [] independent_duplicate_counterexample 1).mpr
-    ⟨by simp, by rintro ⟨o, ho, hne, _⟩; simp at ho; exact hne ho⟩
-  cases this
-
-/-- "the commits `find_octopus_base` reports are pairwise unrelated", for closed histories with non-negative,
-strictly increasing stamps. **False** for the unchanged code. -/
-def OctopusAntichainStatement : Prop :=
-  ∀ (g : Graph), g.WF → g.StrictMono → (∀ z, 0 ≤ g.ts z) → ∀ (ids : List Nat), (∀ c, c ∈ ids → c < g.n) →
-    ∀ r, findOctopusBase g ids = .ok r → ∀ x y, x ∈ r → y ∈ r → ¬ SAnc g x y
-
-theorem octopus_antichain_fails : ¬ OctopusAntichainStatement := by
-  intro h
-  refine h octo8 (by unfold Graph.WF; decide) octopus_fold_counterexample.2.1 (ofLists_nonneg _ _ (by decide))
-    [5, 6, 7] (by decide) [1, 2] octopus_fold_counterexample.1 1 2 (by simp) (by simp) ?_
-  exact ⟨1, by decide, Anc.refl 1⟩
+/-- before: a commit with a negative commit time was cut off by the default `min_stamp = 0`:
+`find_merge_base([root, child])` was `[]`; now `[root]`. -/
+theorem negative_stamp_counterexample :
+    Old.findMergeBase neg2 [0, 1] = .ok [] ∧ findMergeBase neg2 [0, 1] = .ok [0] ∧
+    canFastForward neg2 0 1 = .ok true := by decide
 
 /-! ## 7. non-vacuity: the hypotheses of the theorems hold on non-trivial histories -/
 
 /-- criss-cross: 1 and 2 on 0; 3 and 4 both merge 1 and 2 -/
 def cross5 : Graph := Graph.ofLists [[], [0], [0], [1, 2], [1, 2]] [0, 1, 2, 3, 4]
 
-example : cross5.WF ∧ cross5.StrictMono ∧ (∀ z, 0 ≤ cross5.ts z) ∧
+example : cross5.WF ∧ cross5.Acyclic ∧ cross5.StrictMono ∧
     findMergeBase cross5 [3, 4] = .ok [1, 2] ∧ canFastForward cross5 1 4 = .ok true ∧
-    canFastForward cross5 3 4 = .ok false ∧ independent cross5 [0, 1, 3, 4] = .ok [3, 4] :=
-  ⟨by unfold Graph.WF; decide, ofLists_strictMono _ _ (by decide), ofLists_nonneg _ _ (by decide),
-   by decide, by decide, by decide, by decide⟩
+    canFastForward cross5 3 4 = .ok false ∧ independent cross5 [0, 1, 3, 4, 3] = .ok [3, 4] ∧
+    findOctopusBase cross5 [3, 4, 2] = .ok [2] :=
+  ⟨by unfold Graph.WF; decide, ⟨id, ofLists_rank _ _ id (by decide)⟩, ofLists_strictMono _ _ (by decide),
+   by decide, by decide, by decide, by decide, by decide⟩
+
+/-- the same history with a hostile clock (all hypotheses of §4 still hold: there is none on the stamps) -/
+example : (Graph.ofLists [[], [0], [0], [1, 2], [1, 2]] [9, -3, 9, 0, 0]).WF ∧
+    (Graph.ofLists [[], [0], [0], [1, 2], [1, 2]] [9, -3, 9, 0, 0]).Acyclic ∧
+    findMergeBase (Graph.ofLists [[], [0], [0], [1, 2], [1, 2]] [9, -3, 9, 0, 0]) [3, 4] = .ok [1, 2] ∧
+    canFastForward (Graph.ofLists [[], [0], [0], [1, 2], [1, 2]] [9, -3, 9, 0, 0]) 0 4 = .ok true :=
+  ⟨by unfold Graph.WF; decide, ⟨id, ofLists_rank _ _ id (by decide)⟩, by decide, by decide⟩
 
 /-- hypotheses of `flags_sound` / `lcas_complete` on a skewed history where the answer is still exact -/
-example : findLcas chain3 2 [1] 0 = .ok [1] ∧ chain3.WF := ⟨by decide, chain3_wf⟩
+example : findLcas chain3 2 [1] (defaultCut chain3) = .ok [1] ∧ chain3.WF :=
+  ⟨by decide, by unfold Graph.WF; decide⟩
 
 /-- walks: date order and topo order on the criss-cross with all stamps equal (ties by id) -/
 example : Walk.walk (Graph.ofLists [[], [0], [0], [1, 2], [1, 2]] [7, 7, 7, 7, 7])
